@@ -249,6 +249,71 @@ theorem pySortedBy_optKeyLt_perm {l₁ l₂ : List OptKey} (p : l₁ ~ l₂) :
   rw [pySortedBy_optKeyLt_eq, pySortedBy_optKeyLt_eq]
   exact mergeSort_eq_of_perm keyLe_totalLe p
 
+/-! ### `sorted(set(·))` depends only on membership; depfile closure -/
+
+theorem mem_dedup (l : List Str) (x : Str) : x ∈ dedup l ↔ x ∈ l := by
+  induction l with
+  | nil => simp [dedup]
+  | cons a as ih =>
+    simp only [dedup, foldr_cons] at ih ⊢
+    by_cases h : a ∈ foldr (fun a acc => if a ∈ acc then acc else a :: acc) [] as
+    · simp only [h, if_true, mem_cons]
+      constructor
+      · intro hx; exact Or.inr (ih.mp hx)
+      · rintro (rfl | hx)
+        · exact h
+        · exact ih.mpr hx
+    · simp only [h, if_false, mem_cons, ih]
+
+theorem nodup_dedup (l : List Str) : (dedup l).Nodup := by
+  induction l with
+  | nil => simp [dedup]
+  | cons a as ih =>
+    simp only [dedup, foldr_cons] at ih ⊢
+    by_cases h : a ∈ foldr (fun a acc => if a ∈ acc then acc else a :: acc) [] as
+    · simpa [h] using ih
+    · rw [if_neg h]
+      exact nodup_cons.mpr ⟨h, ih⟩
+
+theorem sortedSet_ext {l₁ l₂ : List Str} (h : ∀ x, x ∈ l₁ ↔ x ∈ l₂) : sortedSet l₁ = sortedSet l₂ := by
+  unfold sortedSet
+  apply sortedStrs_perm
+  rw [perm_ext_iff_of_nodup (nodup_dedup l₁) (nodup_dedup l₂)]
+  intro x
+  rw [mem_dedup, mem_dedup]
+  exact h x
+
+theorem mem_sortedSet (l : List Str) (x : Str) : x ∈ sortedSet l ↔ x ∈ l := by
+  unfold sortedSet
+  rw [(sortedStrs_perm_self (dedup l)).mem_iff, mem_dedup]
+
+theorem mem_stepSet (df : List (Str × List Str)) (S : List Str) (x : Str) :
+    x ∈ stepSet df S ↔ x ∈ S ∨ ∃ t, t ∈ S ∧ x ∈ depsAt df t := by
+  simp [stepSet, mem_append, mem_flatMap]
+
+theorem reachN_ext {df₁ df₂ : List (Str × List Str)}
+    (h : ∀ t x, x ∈ depsAt df₁ t ↔ x ∈ depsAt df₂ t) (n : Nat) {S₁ S₂ : List Str}
+    (hs : ∀ x, x ∈ S₁ ↔ x ∈ S₂) : ∀ x, x ∈ reachN df₁ n S₁ ↔ x ∈ reachN df₂ n S₂ := by
+  induction n generalizing S₁ S₂ with
+  | zero => exact hs
+  | succ n ih =>
+    simp only [reachN]
+    apply ih
+    intro x
+    rw [mem_stepSet, mem_stepSet]
+    constructor
+    · rintro (hx | ⟨t, ht, hx⟩)
+      · exact Or.inl ((hs x).mp hx)
+      · exact Or.inr ⟨t, (hs t).mp ht, (h t x).mp hx⟩
+    · rintro (hx | ⟨t, ht, hx⟩)
+      · exact Or.inl ((hs x).mpr hx)
+      · exact Or.inr ⟨t, (hs t).mpr ht, (h t x).mpr hx⟩
+
+theorem depsAt_perm {df₁ df₂ : List (Str × List Str)} (nd : (df₁.map Prod.fst).Nodup) (p : df₁ ~ df₂)
+    (t : Str) : depsAt df₁ t = depsAt df₂ t := by
+  unfold depsAt
+  rw [lookup_perm nd p t]
+
 /-! ### adding the base options to the store commutes with permutations -/
 
 def baseStep (s : List (OptKey × OptKind)) (k : OptKey) : List (OptKey × OptKind) :=
